@@ -286,6 +286,18 @@ def F16():
         return 'unexpected shape %s' % (r.shape,)
 
 
+def F17():
+    ws = []
+    for i, sl in enumerate((2, 1)):
+        img = nb.Nifti1Image(np.zeros((2, 3, 2), dtype=np.int16) + i, np.eye(4))
+        img.header.set_dim_info(None, None, sl)
+        ws.append(NiftiWrapper(img, make_empty=True))
+    try:
+        NiftiWrapper.from_sequence(ws, 3)
+    except Exception as ex:
+        return 'merging images whose dim_info slice entries differ (2 vs 1) -> %s' % type(ex).__name__
+
+
 # ---- open findings (recorded in known-findings.txt, not repaired): these report PRESENT on the current tree
 def N1():
     e = DcmMetaExtension.make_empty((2, 2, 2, 1), np.eye(4), None, 2)
@@ -339,13 +351,25 @@ def N6():
         return 'merge along non-slice dim 0 of const 5 and widened time-samples [5,5]: k stored as %r' % (c,)
 
 
+def N8():
+    ws = []
+    for i, sl in enumerate((2, None)):
+        img = nb.Nifti1Image(np.zeros((2, 3, 2), dtype=np.int16) + i, np.eye(4))
+        img.header.set_dim_info(None, None, sl)
+        ws.append(NiftiWrapper(img, make_empty=True))
+    r = NiftiWrapper.from_sequence(ws, 3)
+    h, e = r.nii_img.header.get_dim_info()[2], r.meta_ext.slice_dim
+    if h != e:
+        return 'merge of images with header slice dims (2, None): result header slice %r but extension slice_dim %r' % (h, e)
+
+
 def deepcopy_ext(e):
     from copy import deepcopy
     return deepcopy(e)
 
 
-OPEN = ['N1', 'N2', 'N3', 'N4', 'N6']
-ALL = ['F16', 'F15', 'F1', 'F2', 'F3', 'F4', 'F5', 'F6', 'F7', 'F8', 'F9', 'F10', 'F11', 'F12', 'F13', 'F14']
+OPEN = ['N1', 'N2', 'N3', 'N4', 'N6', 'N8']
+ALL = ['F17', 'F16', 'F15', 'F1', 'F2', 'F3', 'F4', 'F5', 'F6', 'F7', 'F8', 'F9', 'F10', 'F11', 'F12', 'F13', 'F14']
 
 if __name__ == '__main__':
     which = sys.argv[1:] or ALL
